@@ -20,7 +20,24 @@ from egsim.seams import InjectedFault, WarningsAsErrors
 from egsim.props.c17 import ARG_POOL, decode_arg
 from edgegraph.structure import singleton
 
-CLASS_NAMES = ["T", "T1", "T2", "S", "F", "Z", "D", "P", "P1", "R"]
+CLASS_NAMES = ["T", "T1", "T2", "S", "F", "Z", "D", "P", "P1", "R", "K", "K1"]
+# classes whose __init__ accepts only (name="k", *, verbose=False)
+RESTRICTIVE = ("K", "K1")
+
+
+def fits(cls, args, kwargs):
+    """Would the restrictive __init__ of K / K1 accept this call?"""
+    if cls not in RESTRICTIVE:
+        return True
+    return len(args) <= 1 and set(kwargs) <= {"verbose", "name"} and not (args and "name" in kwargs)
+
+
+def norm_args(cls, args, kwargs):
+    """What __init__ records for a call (K / K1 record their bound parameters)."""
+    if cls not in RESTRICTIVE:
+        return (tuple(args), dict(kwargs))
+    name = args[0] if args else kwargs.get("name", "k")
+    return ((name,), {"verbose": kwargs.get("verbose", False)})
 
 
 def make_classes(hook=None):
@@ -35,11 +52,13 @@ def make_classes(hook=None):
             # an instance without holding a reference to it
             self.token = next(tokens)
             fn = hook["fn"]
+            # the fault is this constructor's own, not that of one it calls
+            fails = bool(hook.get("raise"))
+            hook["raise"] = False
             if fn is not None:
                 hook["fn"] = None  # one shot: user code in the middle of a construction
                 fn(self)
-            if hook.get("raise"):
-                hook["raise"] = False
+            if fails:
                 raise InjectedFault("__init__ failed")
 
         d = {"__init__": __init__, "__qualname__": name}
@@ -80,7 +99,22 @@ def make_classes(hook=None):
         (object,),
         body("R", _instances={}, instances={}, _instance=None, _registry={}, _singleton_instances={}),
     )
-    return {"T": T, "T1": T1, "T2": T2, "S": S, "F": F, "Z": Z, "D": D, "P": P, "P1": P1, "R": R}
+    # a class (and a subclass) whose __init__ has an ordinary, restrictive
+    # signature: calls that do not fit it are fine while an instance is on file
+    # ("whatever arguments are passed") and fail in __init__ otherwise
+    def restrictive(name):
+        ns = body(name)
+        inner = ns["__init__"]
+
+        def __init__(self, name="k", *, verbose=False):
+            inner(self, name, verbose=verbose)
+
+        ns["__init__"] = __init__
+        return ns
+
+    K = M("K", (object,), restrictive("K"))
+    K1 = M("K1", (K,), restrictive("K1"))
+    return {"T": T, "T1": T1, "T2": T2, "S": S, "F": F, "Z": Z, "D": D, "P": P, "P1": P1, "R": R, "K": K, "K1": K1}
 
 
 class St:
@@ -158,6 +192,10 @@ class C18(engine.Property):
         "warnings-as-errors-during-the-call",
         "singleton-class-defined-in-mid-history",
         "class-defined-while-others-live",
+        "call-that-does-not-fit-init-while-no-instance",
+        "call-that-does-not-fit-init-while-live",
+        "user-code-during-a-construction-that-then-fails:construct",
+        "user-code-during-a-construction-that-then-fails:clear",
     ]
 
     def make_config(self, rng):
@@ -199,10 +237,15 @@ class C18(engine.Property):
         if rng.random() < cfg["p_kwargs"]:
             # any keyword name is the caller's to choose -- including ones a
             # library might use for its own parameters
-            kwargs = [[rng.choice(["x", "y", "key", "mapping", "factory", "instance", "name", "value"]), rng.choice(ARG_POOL)]]
+            kwargs = [[rng.choice(["x", "y", "key", "mapping", "factory", "instance", "name", "value", "verbose", "default"]), rng.choice(ARG_POOL)]]
+        cls = rng.choice(classes)
+        if cls in RESTRICTIVE and rng.random() < 0.5:
+            # a call the class's own signature accepts
+            args = args[: rng.randint(0, 1)]
+            kwargs = [["verbose", rng.choice(ARG_POOL)]] if kwargs else []
         op = {
             "op": "construct",
-            "cls": rng.choice(classes),
+            "cls": cls,
             "args": args,
             "kwargs": kwargs,
             "new": st.namer.new("i"),
@@ -212,7 +255,7 @@ class C18(engine.Property):
             op["w_error"] = True
         if rng.random() < cfg.get("p_init_fails", 0.0):
             op["init_fails"] = True
-        elif rng.random() < cfg.get("p_during", 0.0):
+        if rng.random() < cfg.get("p_during", 0.0) * (0.5 if op.get("init_fails") else 1.0):
             r = rng.random()
             other = rng.choice(cfg["classes"])
             if r < 0.35:
@@ -273,16 +316,28 @@ class C18(engine.Property):
                 s["probe:subclass-constructed-while-parent-live"] += 1
             if cls == "T" and (st.model["T1"] or st.model["T2"]):
                 s["probe:parent-constructed-while-subclass-live"] += 1
-            if op.get("init_fails") and live is None:
+            unfit = not fits(cls, args, kwargs)
+            if unfit and live is None:
+                s["probe:call-that-does-not-fit-init-while-no-instance"] += 1
+            elif unfit:
+                s["probe:call-that-does-not-fit-init-while-live"] += 1
+            if (op.get("init_fails") or unfit) and live is None:
                 s["fault:init-raises"] += 1
                 s["probe:construction-failed-in-init"] += 1
-                st.hook["raise"] = True
+                st.hook["raise"] = not unfit
+                during = op.get("during")
+                if during is not None and not unfit and during.get("cls", cls) in st.classes:
+                    # user code runs inside the constructor, which then fails
+                    s["probe:user-code-during-a-construction-that-then-fails:" + during["op"]] += 1
+                    s["fault:reentrant-call-during-init"] += 1
+                    st.hook["fn"] = lambda _self, d=during: self._nested(st, d)
                 try:
                     klass(*args, **kwargs)
                     out = {"ret": "returned"}
                 except Exception as exc:  # pylint: disable=broad-except
                     out = {"exc": type(exc).__name__}
                 st.hook["raise"] = False
+                st.hook["fn"] = None
                 if "exc" not in out:
                     return out, engine.viol("C18/failed-init-swallowed", {"op": op})
                 # nothing was constructed: the class still has no instance, and
@@ -333,10 +388,10 @@ class C18(engine.Property):
                     st.token[lab] = getattr(obj, "token", None)
                     st.tok2lab[st.token[lab]] = lab
                     st.model[cls] = lab
-                    st.first_args[lab] = (args, dict(kwargs))
+                    st.first_args[lab] = norm_args(cls, args, kwargs)
                     st.mutations += 1
                     out = {"ret": lab}
-                    if obj.init_count != 1 or obj.init_args != (args, dict(kwargs)):
+                    if obj.init_count != 1 or obj.init_args != norm_args(cls, args, kwargs):
                         v = engine.viol(
                             "C18/init-not-run-once-with-the-call's-arguments",
                             {"op": op, "init_count": obj.init_count},
@@ -407,7 +462,7 @@ class C18(engine.Property):
             st.token[lab] = getattr(obj, "token", None)
             st.tok2lab[st.token[lab]] = lab
             st.model[d["cls"]] = lab
-            st.first_args[lab] = ((), {})
+            st.first_args[lab] = norm_args(d["cls"], (), {})
 
     def _still_empty(self, st, op, cls):
         """After a failed construction the next one must construct afresh."""
@@ -418,14 +473,14 @@ class C18(engine.Property):
                 "C18/construction-raises-after-a-failed-construction",
                 {"op": op, "exc": type(exc).__name__},
             )
-        ok = obj.init_count == 1 and obj.init_args == (("probe",), {}) and obj.token not in st.tok2lab
+        ok = obj.init_count == 1 and obj.init_args == norm_args(cls, ("probe",), {}) and obj.token not in st.tok2lab
         # keep the model in step with what this observation did
         lab = "probe:" + op["new"]
         st.inst[lab] = obj if st.hold else None
         st.token[lab] = obj.token
         st.tok2lab[obj.token] = lab
         st.model[cls] = lab
-        st.first_args[lab] = (("probe",), {})
+        st.first_args[lab] = norm_args(cls, ("probe",), {})
         if not ok:
             return engine.viol(
                 "C18/failed-construction-left-an-instance", {"op": op, "init_count": obj.init_count}
